@@ -2,9 +2,11 @@ INIT SimInit
 NEXT SimNext
 CONSTANTS
   N = 3
-  MaxSess = 7
+  MaxSess = 8
   MaxRpc = 3
   InLock = TRUE
+  MaxWedged = 1
   MaxBurst = 4
-  Depth = 24
+  MaxHold = 2
+  Depth = 26
 CHECK_DEADLOCK FALSE
